@@ -79,7 +79,10 @@ class CNFizer(DagWalker):
                 elif not lit.is_false():
                     # Prune FALSE literals
                     simp.append(lit)
-            if simp:
+            if simp is not None:
+                if len(simp) == 0:
+                    # All the literals are FALSE: the empty clause
+                    return CNFizer.FALSE_CNF
                 res.append(frozenset(simp))
         return frozenset(res)
 
